@@ -23,7 +23,7 @@ CONSTANTS Users,        \* e.g. {1, 2}
           Garbled,      \* sizes of undecryptable blobs offered, e.g. {1, 3}
           H0,           \* boot height
           MaxBlocks, MaxOps, MaxDisc,
-          Acts,         \* subset of {"Register","Add","Get","Sub","Mine","Disconnect","BadSig"}
+          Acts,         \* subset of {"Register","Add","Get","Sub","Mine","Disconnect","BadSig","Restart"}
           Emit
 
 VARIABLES st, g, chain, nblocks, nops, ndisc, nver, nextId, viol, hist
@@ -202,7 +202,28 @@ Disconnect ==
     /\ ndisc' = ndisc + 1
     /\ UNCHANGED <<nblocks, nops, nver, nextId>>
 
+\* C03 at the design level: the tower process is killed between two actions and restarted on its data directory.  The
+\* bootstrap (Tower.tla's BootF = teos/src/main.rs) rebuilds everything volatile from the durable state and the node's
+\* blocks: the users map, the heights, the Watcher's cache (last CACHE_N blocks), the Responder's index (last IDX_N blocks);
+\* the reorged flags, the Carrier's memo are gone.  Every monitor and invariant keeps being evaluated afterwards: the
+\* restarted tower must answer what follows exactly as specified.  Restarts are taken when the durable last known block is
+\* the node's tip (a restart after a poll that recorded the tip without delivering the blocks is known finding F-C03-2).
+Restart ==
+    /\ "Restart" \in Acts /\ ndisc = 0
+    /\ st.lastKnown = chain[Len(chain)].id \/ st.lastKnown = 0
+    /\ LET n == Len(chain)
+           blocks == SubSeq(chain, IF n > IDX_N THEN n - IDX_N + 1 ELSE 1, n)
+           db == [users |-> st.users, appts |-> st.appts, trackers |-> st.trackers, lastKnown |-> st.lastKnown]
+       IN /\ st' = BootF(db, blocks, chain[n].h)
+          /\ g' = [g EXCEPT !.fresh = {}]
+          /\ viol' = viol \cup Tags("Boot", C07_Copies(BootF(db, blocks, chain[n].h)))
+                          \cup (IF st.reorged # {} THEN {<<"Boot", "C03", "reorged_flags_lost">>} ELSE {})
+          /\ hist' = Append(hist, [op |-> "restart"])
+    /\ nops' = nops + 1
+    /\ UNCHANGED <<chain, nblocks, ndisc, nver, nextId>>
+
 Next ==
+    \/ Restart
     \/ \E u \in Users : DoRegister(u)
     \/ AddAny
     \/ BadSigAdd
